@@ -274,7 +274,7 @@ func (d *D) Base(idx int, ctx *core.Ctx) *core.Scenario {
 		sc.Sealed["choices"] = fmt.Sprint(n)
 		sc.Sealed["matching"] = fmt.Sprint(r.Intn(1 << n)) // which choices output the question's output
 		sc.Sealed["multi"] = []string{"0", "1"}[r.Intn(2)]
-		sc.Sealed["form"] = fmt.Sprint(r.Intn(8)) // 0-1 inline text, 2-3 evy code blocks, 4-7 picture questions with linked programs (7: a picture with text)
+		sc.Sealed["form"] = fmt.Sprint(r.Intn(9)) // 0-1 inline text, 2-3 evy code blocks, 4-7 picture questions with linked programs (7: a picture with text), 8: very long text outputs
 		sc.Sealed["sealed_fm"] = []string{"0", "1"}[r.Intn(2)]
 	}
 	sc.Sealed["public_key"] = k.Public
@@ -780,6 +780,34 @@ func (d *D) svgQuestion(answerLine string, multi bool, n, matching, variant int)
 	return b.String()
 }
 
+// longQuestion: question and choices are links to programs whose text output is far longer than
+// any buffer someone might think sufficient (77 kB) and differs only in the last line.
+func (d *D) longQuestion(answerLine string, multi bool, n, matching int) string {
+	dir := "long"
+	abs := filepath.Join(d.workdir(), dir)
+	os.RemoveAll(abs)       //nolint:errcheck
+	os.MkdirAll(abs, 0o755) //nolint:errcheck
+	prog := func(last string) string {
+		return "for range 7000\n    print \"0123456789\"\nend\nprint \"" + last + "\"\n"
+	}
+	os.WriteFile(filepath.Join(abs, "q.evy"), []byte(prog("end A")), 0o644) //nolint:errcheck
+	at := "single-choice"
+	if multi {
+		at = "multiple-choice"
+	}
+	var b strings.Builder
+	fmt.Fprintf(&b, "---\ntype: question\ndifficulty: easy\nanswer-type: %s\n%s\n---\n\n## Generated question\n\nWhich program prints this?\n\n[question](%s/q.evy \"evy:text\")\n\nChoose:\n\n", at, answerLine, dir)
+	for i := 0; i < n; i++ {
+		last := "end A"
+		if matching&(1<<i) == 0 {
+			last = []string{"end B", "end a", "end A ", "end"}[(i+matching)%4]
+		}
+		os.WriteFile(filepath.Join(abs, fmt.Sprintf("c%d.evy", i)), []byte(prog(last)), 0o644) //nolint:errcheck
+		fmt.Fprintf(&b, "- [answer](%s/c%d.evy \"evy:source\")\n", dir, i)
+	}
+	return b.String()
+}
+
 // mixedQuestion writes a question whose question and choices are links to programs that
 // print AND draw. kind "text" asks for the text output (evy:text), kind "svg" for the
 // picture (evy:svg); the program files are byte-identical in both kinds. matchT / matchP say
@@ -1044,8 +1072,11 @@ func (d *D) runQuestion(sc *core.Scenario, ctx *core.Ctx) *core.Violation {
 			line = "sealed-answer: " + sealedValue
 		}
 		content := questionMD(line, multi, n, matching, form)
-		if form >= 4 {
+		if form >= 4 && form != 8 {
 			content = d.svgQuestion(line, multi, n, matching, form)
+		}
+		if form == 8 {
+			content = d.longQuestion(line, multi, n, matching)
 		}
 		usePriv := ""
 		if sealedFM {
@@ -1090,7 +1121,7 @@ func (d *D) runQuestion(sc *core.Scenario, ctx *core.Ctx) *core.Violation {
 				Expected: "verification accepts a question exactly when the marked choices are precisely the choices whose output equals the question's output",
 				Observed: obs, Match: map[string]string{"oracle": "verify-iff", "case": sig}}
 		}
-		if sealedFM && form < 4 {
+		if sealedFM && (form < 4 || form == 8) && form != 8 {
 			// corrupt the sealed front matter value: Verify must fail to unseal, or give the verdict of the uncorrupted file
 			cs := corruptions(sealedValue, false)
 			r := prng.Derive(sc.Seed, uint64(sc.Index), uint64(marked), 77)
